@@ -11,7 +11,7 @@ import build as B
 import common as H
 import sercommon as S
 from common import Case
-from props.C12 import KINDS, UNIVS, valid_desc
+from props.C12 import KINDS, UNIVS, valid_desc, falsy_descs
 
 KMS = ["true", "false", "custom"]
 VMS = ["true", "false", "custom"]
@@ -96,6 +96,8 @@ class Prop:
     def descs(self, tier, rng):
         yield from CORPUS
         yield from self.fs_descs(tier, rng)
+        for j, fd in enumerate(falsy_descs()):
+            yield dict(fd, km=KMS[j % 3], vm=VMS[(j // 3) % 3])
         combos = [(k, v) for k in KMS for v in VMS]
         i = 0
         for td in self.tree_descs(tier, rng):
@@ -196,7 +198,7 @@ class Prop:
                 obs = [[0, S.jv_sx(doc)], [1, S.err_class(t0)]]
                 hashes, fnames = S.failed_load_facts(lambda: cls.load(io.StringIO(text0), **lkw))
             else:
-                forest, hashes = S.obs_loaded_tree(t0)
+                forest, hashes = S.obs_loaded_tree(t0, doc["nodes"])
                 obs = [[0, S.jv_sx(doc)], [0, [S.jv_sx(meta0), forest]]]
         for name, text, t2, meta in tr[1:]:
             if isinstance(text, Exception) or isinstance(text0, Exception):
